@@ -133,8 +133,8 @@ int ADtest(int n, double *x, double *outputs)
             return ANDARL_ERROR + __LINE__;
 
         /* Compute test stat */
-        t=x[i]*(1.-x[n-1-i]);
-        z=z-(i+i+1)*log(t);
+        t=log(x[i])+log1p(-x[n-1-i]);
+        z=z-(i+i+1)*t;
 
         prev = x[i];
     }
